@@ -1033,4 +1033,126 @@ end
 def contextRepr (c : Entries) : Except Exc String :=
   if serialisableE c then .ok (pretty 0 (.dict c)) else .error .unmodelled
 
+/-! ## `to_string` of dictionaries whose keys are not strings
+
+`json.dumps(d, sort_keys=True)` first sorts the items of every dictionary (`sorted(dct.items())`: a `TypeError`
+when two keys cannot be compared — a string with a number, `None` with anything), then writes every key as a
+string: a `str` as it is, an `int` in decimal, `True`/`False`/`None` as `true`/`false`/`null`, a float by its
+`repr`; a key of any other type is a `TypeError`.  `to_string` turns both into `LenaValueError`.  So `{1: x}`
+and `{"1": x}` give the same string (recorded in DESIGN.md as outside the string-keyed domain of C08). -/
+
+/-- a Python value whose dictionaries may have any scalar as a key -/
+inductive JVal where
+  | leaf (a : Leaf)
+  | list (xs : List JVal)
+  | dict (es : List (Leaf × JVal))
+  deriving Repr
+
+def keyIsStr : Leaf → Bool
+  | .str _ => true
+  | _ => false
+
+def keyIsNum : Leaf → Bool
+  | .int _ => true
+  | .bool _ => true
+  | _ => false
+
+def keyIsFloat : Leaf → Bool
+  | .float _ => true
+  | _ => false
+
+/-- the number a numeric key is compared as (`True` is 1, `False` is 0) -/
+def keyNum : Leaf → Int
+  | .int i => i
+  | .bool true => 1
+  | _ => 0
+
+/-- can `sorted` compare the keys: at most one key, or all strings, or all numbers; `none`: float keys
+(compared numerically: not modelled) -/
+def keysSortable (ks : List Leaf) : Option Bool :=
+  if ks.any keyIsFloat then none
+  else some (decide (ks.length ≤ 1) || ks.all keyIsStr || ks.all keyIsNum)
+
+def keyLe : Leaf → Leaf → Bool
+  | .str x, .str y => x ≤ y
+  | a, b => keyNum a ≤ keyNum b
+
+/-- the string written for a key; `none`: "keys must be str, int, float, bool or None" -/
+def keyText : Leaf → Option String
+  | .str s => some s
+  | .int i => some (toString i)
+  | .bool true => some "true"
+  | .bool false => some "false"
+  | .none => some "null"
+  | .float r => some (Tok.scalar (.float r)).spell
+  | .obj _ => none
+
+def insertJ (k : Leaf) (t : List Tok) : List (Leaf × List Tok) → List (Leaf × List Tok)
+  | [] => [(k, t)]
+  | (k', t') :: r => if keyLe k k' then (k, t) :: (k', t') :: r else (k', t') :: insertJ k t r
+
+def sortJ : List (Leaf × List Tok) → List (Leaf × List Tok)
+  | [] => []
+  | (k, t) :: r => insertJ k t (sortJ r)
+
+/-- the keys as strings, or `none` when one cannot be written -/
+def textItems : List (Leaf × List Tok) → Option (List (String × List Tok))
+  | [] => some []
+  | (k, t) :: r =>
+    match keyText k, textItems r with
+    | some s, some l => some ((s, t) :: l)
+    | _, _ => none
+
+mutual
+def jTokens : JVal → Except Exc (List Tok)
+  | .leaf (.obj _) => .error .lenaValueError
+  | .leaf a => .ok [.scalar a]
+  | .list xs =>
+    match jElems xs with
+    | .ok t => .ok (.lbrack :: (t ++ [.rbrack]))
+    | .error e => .error e
+  | .dict es =>
+    match keysSortable (es.map (·.1)) with
+    | none => .error .unmodelled
+    | some false => .error .lenaValueError
+    | some true =>
+      match jItems es with
+      | .error e => .error e
+      | .ok items =>
+        match textItems (sortJ items) with
+        | none => .error .lenaValueError
+        | some l => .ok (.lbrace :: joinItems l ++ [.rbrace])
+def jItems : List (Leaf × JVal) → Except Exc (List (Leaf × List Tok))
+  | [] => .ok []
+  | (k, v) :: r =>
+    match jTokens v, jItems r with
+    | .ok t, .ok l => .ok ((k, t) :: l)
+    | .error e, _ => .error e
+    | _, .error e => .error e
+def jElems : List JVal → Except Exc (List Tok)
+  | [] => .ok []
+  | v :: r =>
+    match r with
+    | [] => jTokens v
+    | _ :: _ =>
+      match jTokens v, jElems r with
+      | .ok t, .ok l => .ok (t ++ .comma :: l)
+      | .error e, _ => .error e
+      | _, .error e => .error e
+end
+
+/-! a string-keyed value as a `JVal` -/
+mutual
+def Val.toJ : Val → JVal
+  | .leaf a => .leaf a
+  | .dict es => .dict (entriesToJ es)
+  | .list xs => .list (listToJ xs)
+def entriesToJ : Entries → List (Leaf × JVal)
+  | [] => []
+  | (k, v) :: r => (.str k, v.toJ) :: entriesToJ r
+def listToJ : List Val → List JVal
+  | [] => []
+  | v :: r => v.toJ :: listToJ r
+end
+
 end Lena.C08
